@@ -3,7 +3,8 @@
 usage: tools/seedrun.py <seeded-dir> [prop ...]   (default: the property in meta.json)
 Applies <dir>/patch.diff to /repo (git apply), confirms the demonstration fails, runs ./check <prop> quick
 for each property, restores /repo (git checkout -- .), and writes <dir>/result.json."""
-import json, os, subprocess, sys, shutil
+import json, os, signal, subprocess, sys, shutil
+signal.signal(signal.SIGTERM, lambda *a: sys.exit(143))   # let the finally block restore /repo and evidence/
 V = os.path.dirname(os.path.dirname(os.path.abspath(__file__)))
 d = os.path.abspath(sys.argv[1])
 meta = json.load(open(os.path.join(d, "meta.json")))
@@ -22,7 +23,7 @@ res = {"applied": rc == 0, "apply_out": out[-400:], "checks": {}}
 try:
     if rc == 0:
         demo = os.path.join(d, "demo_test.go")
-        if os.path.exists(demo):
+        if os.path.exists(demo) and not os.environ.get("SEED_SKIP_DEMO"):
             shutil.copy(demo, "/repo/zz_seed_demo_test.go")
             rcd, outd = sh("go test -vet=off -count=1 -run TestSeedDemo .", cwd="/repo")
             os.remove("/repo/zz_seed_demo_test.go")
